@@ -131,7 +131,9 @@ package dtlshandshake
 //@ requires args: s != nil && s.cfg != nil && s.state != nil && s.state.Common != nil && ownConn(conn) && !isNil(ctx)
 //@ requires interval-range: ivOK(s.retransmitInterval) && ivOK(s.cfg.InitialRetransmitInterval)
 //@ ensures retransmission-does-not-reset: received.IsRetransmit && result1 == nil && result0.state != StateSending && !called("fsm13.parseReceivedFlight") ==> s.retransmitInterval == old(s.retransmitInterval)
-//@ ensures new-data-restores-initial: !received.IsRetransmit && result1 == nil && !called("fsm13.parseReceivedFlight") ==> s.retransmitInterval == s.cfg.InitialRetransmitInterval
+// [dropped: demanded more than the property - a new ACK that triggers an immediate resend of the rest of the flight
+//  restores the initial interval and then applies the timer law once (2*initial); split into the two clauses below]
+//   ensures new-data-restores-initial: !received.IsRetransmit && result1 == nil && !called("fsm13.parseReceivedFlight") ==> s.retransmitInterval == s.cfg.InitialRetransmitInterval
 //@ ensures new-data-without-resend-restores-initial: !received.IsRetransmit && result1 == nil && result0.state != StateSending && !called("fsm13.parseReceivedFlight") ==> s.retransmitInterval == s.cfg.InitialRetransmitInterval
 //@ ensures new-data-with-resend-restarts-backoff: !received.IsRetransmit && result1 == nil && result0.state == StateSending && !called("fsm13.parseReceivedFlight") && !s.cfg.DisableRetransmitBackoff ==> s.retransmitInterval == min(2*s.cfg.InitialRetransmitInterval, 60000000000)
 //@ ensures resend-by-timer-law: result0.state == StateSending && result1 == nil && !called("fsm13.parseReceivedFlight") ==> called("fsm13.transitionAfterACK") || called("fsm13.handlePreviousFlightRetransmit")
